@@ -1,4 +1,5 @@
 import Ecal.Lemmas.PriorityBook
+import Ecal.Lemmas.PriorityHeapPop
 /-!
 # C10 — priorities order execution; the first failing rule ends a trigger sequence
 
@@ -285,6 +286,19 @@ theorem no_overtaking {q q' : PQ} {m : Item} (hr : Reachable q) (h : q.pop = som
   omega
 
 example : ((({} : PQ).push 10 3).push 11 (-2)).pop.map (·.1.val) = some 11 := by decide
+
+/-- **The real `heap.Pop` agrees with "pop = least"**: run on a `priorityQueueHeap` slice that is in
+    heap order, container/heap's `Pop` (swap, sift down, cut) returns an item that no queued item
+    precedes, keeps all other items, and leaves the slice in heap order.
+    (That `heap.Push` keeps the heap order is not proved here; it is covered by the correspondence.) -/
+theorem heap_pop_is_min (l l' : List Item) (x : Item) (hok : Heap.Ok Item.lt l l.length 0)
+    (hp : Heap.pop Item.lt l = some (x, l')) :
+    (∀ y ∈ l, y.lt x = false) ∧ (x :: l').Perm l ∧ Heap.Ok Item.lt l' l'.length 0 :=
+  let h := pop_spec itemLt_strict l l' x hok hp
+  ⟨h.2.1, h.2.2.1, h.2.2.2⟩
+
+example : (Heap.pop Item.lt (Heap.push Item.lt (Heap.push Item.lt (Heap.push Item.lt [] ⟨3, 0, 10⟩) ⟨0, 1, 11⟩) ⟨0, 2, 12⟩)).map
+    (fun r => (r.1.val, r.2.map (·.val))) = some (11, [12, 10]) := by decide
 
 /-! ## the root monitor's highest-priority report -/
 
